@@ -37,6 +37,9 @@ def battery_configs(tier):
                                                GroupSpec((b(70),), (i(),))], frozenset({2}), frozenset())
     cfgs["three-groups-first-without-data"] = ([GroupSpec((b(30),), (i(),)), GroupSpec((b(50),), (i(0, 400),)),
                                                 GroupSpec((b(70),), (i(),))], frozenset(), frozenset({0}))
+    # one member battery of a two-battery group (shared inverter) is reported as not working while its data is valid
+    cfgs["shared-inverter-one-battery-not-working"] = ([GroupSpec((b(30), b(70, 100, 500, 3000.0)), (i(0, 1000),)), GroupSpec((b(50),), (i(),))],
+                                                       frozenset({(0, 1)}), frozenset())
     if tier == "thorough":
         cfgs["three-groups"] = [GroupSpec((b(30),), (i(),)), GroupSpec((b(50, 100, 500),), (i(),)),
                                 GroupSpec((b(70),), (i(200, 1000),))]
@@ -126,7 +129,8 @@ CLAUSES = ["distribute_power_completes", "result_is_success_or_partial_failure",
 
 
 def eval_battery(groups, power, outcomes, not_working=frozenset(), no_data=frozenset(), adjust_power=True):
-    r = mgr.run_battery(groups, power, outcomes, adjust_power=adjust_power, not_working=frozenset(not_working), no_data=frozenset(no_data))
+    not_working = frozenset(tuple(x) if isinstance(x, list) else x for x in not_working)
+    r = mgr.run_battery(groups, power, outcomes, adjust_power=adjust_power, not_working=not_working, no_data=frozenset(no_data))
     inv_to_comps = {}
     for bats, invs in r["layout"]:
         for i in invs:
@@ -187,7 +191,7 @@ def shard_fn(shard) -> Acc:
     else:
         vary = inv_ids
     strict = []
-    if kind == "battery":
+    if kind == "battery" and not any(isinstance(x, tuple) for x in not_working):
         # adjust_power=False: only requests inside the advertised bounds are processed at all
         for p_ in reqs:
             rs_ = [dist.ref_group(g, 1 if p_ > 0 else -1) for g in live]
